@@ -2114,7 +2114,11 @@ def check_placed(ctx, case):
     samples = case['samples']
     gain_like = ptype in GAIN_TYPES
     ts = [float(Fr(s[0])) for s in samples]
-    vals = [block([None if v is None else (Fr(v[0]), Fr(v[1])) for v in s[1]], idx, dtype, 3 + k)
+    # the other inputs' gains: a value per solution, the SAME for a solution that repeats the previous one (whole arrays equal)
+    fills = []
+    for k, s in enumerate(samples):
+        fills.append(fills[-1] if k and s[1] == samples[k - 1][1] else 3 + k)
+    vals = [block([None if v is None else (Fr(v[0]), Fr(v[1])) for v in s[1]], idx, dtype, fills[k])
             for k, s in enumerate(samples)]
     if ptype in ('G', 'GPHASE', 'GAMP_PHASE') and case['chans'] == 0:
         vals = [v[0] for v in vals]
@@ -2133,8 +2137,10 @@ def check_placed(ctx, case):
     mo = sp = None
     if ctx.model_ok:
         try:
-            mo, sp = [parse_sols(x) for x in ctx.model([[144, [0, codes(ptype), [q(e) for e in ends], q(Fr(1)),
-                                                               wire_tsamples(samples)]]])[0]]
+            r144 = ctx.model([[144, [0, codes(ptype), [q(e) for e in ends], q(Fr(1)), wire_tsamples(samples)]]])[0]
+            if not (isinstance(r144, list) and len(r144) == 2 and all(isinstance(b, list) for b in r144)):
+                raise KeyError('wire 144 not available')
+            mo, sp = [parse_sols(x) for x in r144]
         except Exception:       # noqa: BLE001 - wire left out of a partial driver: the Python spec still decides
             mo = sp = None
     crashed = None
@@ -2218,6 +2224,8 @@ def check_placed(ctx, case):
                 try:
                     both = ctx.model([[144, [1, codes(ptype), [q(e) for e in ends], q(Fr(1)), wire_tsamples(samples),
                                              [tg] if selfcal else []]]])[0]
+                    if not (isinstance(both, list) and len(both) == 2 and all(isinstance(b, list) for b in both)):
+                        raise KeyError('wire 144 not available')
                     for name, rows in (('model', both[0]), ('spec', both[1])):
                         rows = [[parse_opv(e) for e in row] for row in rows[0]] if rows else None
                         pos, sym = (None, 'none') if rows is None else gain_symptom(g, out, rows)
@@ -2226,13 +2234,15 @@ def check_placed(ctx, case):
                                          None if rows is None else show_m(itertools.chain(*rows)),
                                          'placement + gain interpolation of the Coq %s differs from katdal' % name,
                                          kind='tie' if name == 'model' else 'property')
-                except KeyError:
+                except (KeyError, RuntimeError):
                     pass
     ctx.traces_validated += 1
     ctx.note_case(('P', repr(case)), nontrivial=shape != 'own_dumps', sample=case if N <= 3 else None)
     ctx.count('placed:' + ('gain' if gain_like else 'KB'))
     ctx.count('placed:history=' + shape)
     ctx.count('placed:presel=%s' % (a > 0))
+    if any(k and s[1] == samples[k - 1][1] for k, s in enumerate(samples)):
+        ctx.count('placed:repeated_solution')
 
 
 def gen_placed(rng):
@@ -2304,12 +2314,14 @@ def check_presel(ctx, case):
                              'its start)', spec=show_m(itertools.chain(*spo)))
             try:
                 both = ctx.model([[144, [1, codes('G'), [q(e) for e in ends], q(Fr(1)), wire_tsamples(samples), []]]])[0]
+                if not (isinstance(both, list) and len(both) == 2 and isinstance(both[0], list) and both[0]):
+                    raise KeyError('wire 144 not available')
                 rows = [[parse_opv(e) for e in row] for row in both[0][0]]
                 pos, sym = gain_symptom(g, out, rows)
                 if sym:
                     ctx.disagree(sig0 + ';symptom=model_chain_%s@%s' % (sym, pos), case, show(out),
                                  show_m(itertools.chain(*rows)), 'placement + interpolation of the model differs', kind='tie')
-            except KeyError:
+            except (KeyError, RuntimeError):
                 pass
         if list(d.applycal_products) != (['l1.G'] if case['request'] else []):
             ctx.disagree(sig0 + ';symptom=applied_products', case, list(d.applycal_products), ['l1.G'],
